@@ -9,6 +9,33 @@ type replyResult struct {
 	err error
 }
 
+// replyKind says which kind of transaction a registered waiter belongs to, so that a reply is only ever
+// delivered to a waiter of the matching kind: a data secondary completes only a data transaction, a control
+// response (Select/Deselect/Linktest.rsp) only a control transaction. System Bytes alone do not tell them
+// apart — a peer can send a control response that reuses the System Bytes of an open data transaction.
+type replyKind uint8
+
+const (
+	replyAny     replyKind = iota // matches either kind (a Reject.req can reject a data or a control message)
+	replyData                     // W-bit data transaction (T3)
+	replyControl                  // control transaction (T6)
+)
+
+// replyWaiter is one registry entry: the sender-owned channel and the kind of transaction waiting on it.
+type replyWaiter struct {
+	ch   chan replyResult
+	kind replyKind
+}
+
+// kindOf returns the single optional kind argument of register/route, replyAny when it is omitted.
+func kindOf(kind []replyKind) replyKind {
+	if len(kind) > 0 {
+		return kind[0]
+	}
+
+	return replyAny
+}
+
 // replyRegistry maps SystemBytes keys to the sender-owned reply channels.
 //
 // Lifecycle invariant (§5.5): the SENDER owns the entire channel lifetime.
@@ -21,20 +48,23 @@ type replyResult struct {
 // close(ch) is intentionally absent everywhere: this makes the F5
 // "send on closed channel" panic class structurally unreachable.
 type replyRegistry struct {
-	m *xsync.MapOf[[4]byte, chan replyResult]
+	m *xsync.MapOf[[4]byte, replyWaiter]
 }
 
 // newReplyRegistry returns an initialised replyRegistry ready for use.
 func newReplyRegistry() replyRegistry {
-	return replyRegistry{m: xsync.NewMapOf[[4]byte, chan replyResult]()}
+	return replyRegistry{m: xsync.NewMapOf[[4]byte, replyWaiter]()}
 }
 
 // register allocates a buffered reply channel for key, stores it, and returns
 // it to the sender.  The caller is responsible for calling deregister (via
 // defer) when the send operation completes or is abandoned.
-func (r replyRegistry) register(key [4]byte) chan replyResult {
+//
+// The optional kind records which kind of transaction is waiting (sendWaitReply passes replyData or
+// replyControl); route only delivers a reply of the same kind to it. Omitted, the waiter accepts either.
+func (r replyRegistry) register(key [4]byte, kind ...replyKind) chan replyResult {
 	ch := make(chan replyResult, 1)
-	r.m.Store(key, ch)
+	r.m.Store(key, replyWaiter{ch: ch, kind: kindOf(kind)})
 
 	return ch
 }
@@ -49,14 +79,25 @@ func (r replyRegistry) deregister(key [4]byte) {
 // Returns true if the key was found (hit), false if it was absent (miss).
 // On hit, if the channel is already full (a duplicate reply raced in) the
 // result is silently discarded via the default branch — no block, no panic.
-func (r replyRegistry) route(key [4]byte, res replyResult) bool {
-	ch, ok := r.m.Load(key)
+//
+// The optional kind is the kind of the routed reply (RouteReply passes replyData for a data secondary,
+// replyControl for a control response). A waiter registered for the OTHER kind is a miss, exactly as if the
+// key were absent: a control response whose System Bytes collide with an open data transaction is an orphan
+// control response (the caller answers it with Reject(TransactionNotOpen), E37 §8.3.20) while the data sender
+// keeps waiting for its own secondary; a data secondary colliding with an open control transaction is an
+// unsolicited secondary. replyAny (or an omitted kind) on either side matches.
+func (r replyRegistry) route(key [4]byte, res replyResult, kind ...replyKind) bool {
+	w, ok := r.m.Load(key)
 	if !ok {
 		return false
 	}
 
+	if k := kindOf(kind); k != replyAny && w.kind != replyAny && w.kind != k {
+		return false
+	}
+
 	select {
-	case ch <- res:
+	case w.ch <- res:
 	default:
 	}
 
